@@ -3,7 +3,7 @@
 // under hook-injected schedule noise and records what the harness' own handlers and sinks observe.
 // No oracle logic: every line of the output file is an observation; vlib/hist_conc.py decides.
 //
-//   drv_conc c02 <out> <target:logger|bare> <producers> <msgs> <sinkprofile> <noise> <cores> <seed> [<mode switches>]
+//   drv_conc c02 <out> <target:logger|bare> <producers> <msgs> <sinkprofile> <noise> <cores> <seed> [<mode switches> [<pace us>]]
 //   drv_conc c03 <out> <target:logger|bare> <producers> <msgs> <sinkprofile> <noise> <cores> <seed> <burst>
 #include <atomic>
 #include <chrono>
@@ -253,6 +253,9 @@ int runC02(int argc, char **argv)
     setAffinity(cores);
 
     const int switches = argc > 10 ? atoi(argv[10]) : 0;
+    // paced producers: a random pause of up to pace_us after every message, so that they are still logging - at about the rate the sink
+    // delivers - while the switcher goes through its cycles (unpaced, they queue everything during the first asynchronous phase)
+    const long paceUs = argc > 11 ? atol(argv[11]) : 0;
     // with mode switches the logger needs an application object (the own thread's event delivery depends on it)
     QCoreApplication *app = switches > 0 ? new QCoreApplication(argc, argv) : nullptr;
     (void)app;
@@ -320,6 +323,7 @@ int runC02(int argc, char **argv)
                 }
                 rec('R', id, ticket());
                 if (r % 50 == 0) sched_yield();
+                if (paceUs > 0) spinUs(long(rng() % uint64_t(paceUs)));
             }
         });
     }
